@@ -174,7 +174,10 @@ bool parse_body(const uint8_t *p, size_t n, bool big_endian, const std::string &
 
 bool valid_utf8(const std::string &s);               // no NUL, no overlong, no surrogates, <= U+10FFFF; noncharacters ARE allowed
 bool valid_bus_name(const std::string &s);           // unique or well-known, <= 255
-bool valid_unique_name(const std::string &s);        // starts with ':' and valid
+bool valid_unique_name(const std::string &s);
+// Would these bytes parse as one valid message if a listed deviation of the reference were the rule?
+// which = 1: dict entries on a nesting budget of their own; 2: unique names of a single element.
+bool valid_if_relaxed(const std::string &bytes, int which, const Limits &lim = Limits());        // starts with ':' and valid
 bool valid_wellknown_name(const std::string &s);     // valid and not starting with ':'
 bool valid_interface(const std::string &s);
 bool valid_member(const std::string &s);
